@@ -9,6 +9,17 @@ import (
 // eval evaluates e to a value (applying the load rule to references).
 func (ev *Eval) eval(e wgen.Expr) Val {
 	ev.tick()
+	if !ev.constMode && len(ev.ovr) > 0 {
+		// a maximal override-expression inside a function body is evaluated at pipeline creation: an error in it
+		// (integer overflow, division by zero, ...) is a pipeline-creation error, so it is evaluated in const mode
+		switch e.(type) {
+		case *wgen.Binary, *wgen.Unary, *wgen.Builtin, *wgen.Cons, *wgen.Materialize, *wgen.Index, *wgen.Swiz:
+			if wgen.IsOverrideExpr(e) {
+				ev.constMode = true
+				defer func() { ev.constMode = false }()
+			}
+		}
+	}
 	switch e := e.(type) {
 	case *wgen.Lit:
 		return ev.lit(e)
